@@ -123,6 +123,7 @@ pub struct FsState {
     pub fired: Vec<(usize, Fault)>,
     pub chunking: Chunking,
     chunk_rng: SplitMix64,
+    chunk_seed: u64,
     /// additional random EINTR / short read injection rate (per 1024 read calls), independent of the plan
     pub open_counts: BTreeMap<String, u32>,
     pub cycle_guard_hit: bool,
@@ -174,6 +175,7 @@ impl SimFs {
                 fired: Vec::new(),
                 chunking: Chunking::Whole,
                 chunk_rng: SplitMix64(chunk_seed),
+                chunk_seed,
                 open_counts: BTreeMap::new(),
                 cycle_guard_hit: false,
                 cycle_guard_limit: 48,
@@ -234,6 +236,8 @@ impl SimFs {
         st.open_counts.clear();
         st.cycle_guard_hit = false;
         st.bytes_opened = 0;
+        // every operation sees the same chunk-size sequence, so that call indices of a recorded trace stay valid
+        st.chunk_rng = SplitMix64(st.chunk_seed);
     }
 
     pub fn set_chunking(&self, c: Chunking) {
